@@ -166,7 +166,8 @@ def execute(binpath, workdir, progs, specs, groups, deadline_ms=5000):
     for gi, g in enumerate(groups):
         for mi, m in enumerate(g["members"]):
             s = specs[m["si"]]
-            flat.append({"id": len(flat), "prog": s.get("prog", 0), "spec": s["str"], "env": list(m["env"]), "argv": list(m["argv"])})
+            flat.append({"id": len(flat), "prog": s.get("prog", 0), "spec": s["str"], "env": list(m["env"]), "argv": list(m["argv"]),
+                         "prerun": [list(x) for x in m.get("prerun", [])]})
             index.append((gi, mi))
     rs = core.run_harness(binpath, "exec", flat, workdir, env={"HARNESS_PROGS": pf}, deadline_ms=deadline_ms)
     out = [[None] * len(g["members"]) for g in groups]
